@@ -14,6 +14,15 @@ COMMON_NOTE = ("Trusted: Lean 4.33.0 kernel; axioms propext, Classical.choice, Q
 
 # id -> (claimed, theorem summary, technique, design section, extra note)
 TABLE = {
+    "C15": (True,
+            "Theorems (Props/C15.lean): a registered p-array is delivered as its name positionally and by keyword, "
+            "other variables by value; declaring an array named p<digits> in a tdm program registers the name and "
+            "stores the data, nothing is registered otherwise; registered names are never among the reported "
+            "parameters, so a tdm program without {} is not a template; references are serialised bare (only in tdm "
+            "programs) and the variable block writes every array with its type and rows. Oracle: delivery by name, "
+            "data, dtype, parameters, is_template and loads(dumps(p)) on random tdm scripts.",
+            "Lean 4 proof + correspondence", "DESIGN.md 7 (C15)",
+            "Round trip of the variable block at text level is covered by C01's parser/printer theorems and the oracle."),
     "C16": (True,
             "Theorems over programs of any length (Props/C16.lean): nodes are exactly the operations that depend on a "
             "wire, each once, carrying their operation; every edge goes forward, hence no cycle; reachability in the "
@@ -33,6 +42,28 @@ TABLE = {
             "denotation of the items. Oracle: loaded program vs an independent Python evaluation of the generator's AST.",
             "Lean 4 proof (refinement to a denotational spec, induction over items/values/statements) + correspondence",
             "DESIGN.md 7 (C02)", "The parse tree walk order (ANTLR ParseTreeWalker) is represented by the item order."),
+    "C03": (True,
+            "Theorems (Props/C03.lean, Props/C03Parse.lean): the evaluator's shapes (a-b as sum [a, -b]; a/b as "
+            "prod [a, b**-1] with integer divisors cast to real) compute a-b, a/b, a*b, a^n in every field whose scalar "
+            "primitives are the field operations; + - * ** keep integers integers, / is true division also on integers; "
+            "complex products/sums follow the textbook formulas; literal conversion of INT and splitting of COMPLEX "
+            "tokens. Tree shape: the model parser returns, for every well-bracketed expression tree of any depth, exactly "
+            "that tree when given its minimal-bracket token sequence (unary sign > right-assoc ** > * / > + -, "
+            "left-assoc). Finite tables (15 functions) and float rounding are compared differentially (1e-12) against "
+            "an independent Python evaluation of random expressions to depth 8/14.",
+            "Lean 4 proof (field semantics with Mathlib; parser/printer round trip) + differential oracle", "DESIGN.md 7 (C03)",
+            "IEEE rounding, libm and int64 wrap-around are outside the theorems (the property grants 1e-12 and excludes "
+            "overflow); that ANTLR's precedence climbing builds the model parser's tree is checked differentially."),
+    "C04": (True,
+            "Theorems (Props/C04.lean): instantiating a symbolic value at a numeric assignment computes the value of the "
+            "written expression tree with every parameter replaced by its value (all expression forms), a missing value "
+            "is refused with ValueError also when nested; a program without parameters is refused; is_template iff the "
+            "parameter set is non-empty; an instantiated program has no parameters and keeps name/version/target/type/"
+            "modes; 2-D array values expand to name_i_j per element, other iterables are refused; re-insertion of array "
+            "parameters (C05). Partial: agreement of Python-number and NumPy arithmetic on the substituted text is "
+            "covered by the oracle loads(t)(**v) vs loads(substituted text), 1e-9.",
+            "Lean 4 proof (induction over symbolic trees) + correspondence", "DESIGN.md 7 (C04)",
+            "SymPy (lambdify, free_symbols) is a contract boundary; symbolic values are the written trees."),
     "C05": (True,
             "Theorems (Props/C05.lean): a successfully assembled array has as many rows as written, element (r, c) of "
             "the flat data is the c-th entry of the r-th written row (index r*ncols + c), a declared shape equals the "
@@ -55,6 +86,17 @@ TABLE = {
             "Lean 4 proof (substitution lemma, induction over values and statements) + correspondence", "DESIGN.md 7 (C06)",
             "The deferral of body statements during the tree walk (_in_for) is represented by its effect "
             "(the body is executed by exitForloop only)."),
+    "C07": (True,
+            "Theorems (Props/C07.lean): a call of an included program without parameters contributes exactly copies of "
+            "its operations with its modes, in increasing order and each once, renamed to the call's modes; a template "
+            "called with exactly its parameters contributes the operations of the instantiated template, renamed; a "
+            "call's contribution depends only on the included program and the call's own modes (k calls = k copies); "
+            "repeated include lines are skipped; nested include dictionaries are merged; the file read for an absolute "
+            "joined path does not depend on the process directory; negation for the pre-repair call site (in-place "
+            "renaming, set-order pairing). Oracle: load(main) from several process directories vs loads(hand-inlined text).",
+            "Lean 4 proof + correspondence on generated file trees", "DESIGN.md 7 (C07)",
+            "os.path.join/dirname are mirrored on strings; general string lemmas about them are not proved (the path "
+            "theorem assumes the joined path is absolute); the file system is a finite map."),
     "C08": (True,
             "Theorems (Props/C08.lean) for every symbolic argument and EVERY iteration order of the symbol set: the "
             "transform's function applied to the measurement values of the listed symbols in the listed order equals the "
@@ -65,6 +107,16 @@ TABLE = {
             "Lean 4 proof (induction over expressions, permutation lemmas) + correspondence", "DESIGN.md 7 (C08)",
             "SymPy's simplification and lambdify are a contract boundary (registers that cancel identically are outside "
             "the property and not generated)."),
+    "C11": (True,
+            "Theorems (Props/C11.lean): an expression that mentions an undefined name at any depth never evaluates "
+            "(and the use itself is reported with identifier and token position); lifted to every slot: mode, "
+            "positional argument, keyword argument, list element, array index, scalar initialiser, loop list, metadata "
+            "option; reserved names (qN, name, version, target, type) are refused for scalars and arrays with identifier "
+            "and position; float/complex/string modes are refused; complex values are refused for int/float scalars and "
+            "array elements; wrongly typed loop values (C06); include calls with wrong arity or keywords are refused; a "
+            "failing item anywhere makes the whole walk fail. Oracle: fault injection at random positions of random scripts.",
+            "Lean 4 proof (induction over expressions; error propagation through folds) + fault injection", "DESIGN.md 7 (C11)",
+            "Error message texts are outside the model except identifier and position."),
     "C12": (True,
             "Theorems (Props/C12.lean): the outcome of a load and the tables it leaves do not depend on the tables it "
             "starts from; every load of every finite history has its pristine-process outcome (induction on the "
@@ -80,6 +132,16 @@ TABLE = {
             "instances is aliasing between Python objects, decided by the harness (mutate-and-compare sequences) only.",
             "Lean 4 proof (induction over operation sequences) + mutate-and-compare harness", "DESIGN.md 7 (C13)",
             "Second sentence of the property (instance independence) is not carried by the functional model."),
+    "C17": (True,
+            "Theorems (Props/C17.lean) in exact arithmetic: solving alpha*p+beta = y (alpha != 0) recovers the value "
+            "instantiated; a bare parameter is bound to the program's argument; repeated parameters must match equal "
+            "values, equal values are accepted; two parameters in one argument are refused; non-template / template "
+            "program / version / target / operation count / a gate-or-mode-list label missing from the program are "
+            "rejected with TemplateError. Partial: uniqueness of the label-preserving isomorphism (so that networkx's "
+            "choice is irrelevant) is checked by the oracle on randomly reordered instances, not proved. Oracle: "
+            "match(t, reorder(t(**v))) recovers v; five structural edits rejected.",
+            "Lean 4 proof (field arithmetic with Mathlib) + correspondence", "DESIGN.md 7 (C17)",
+            "SymPy's solve and networkx's VF2 are contract boundaries; exact comparison of recovered floats is an open finding."),
     "C19": (True,
             "Theorems (Props/C19.lean) quantified over all iteration orders of the sets involved: the outcome of a load "
             "is independent of the order (include call-site mode maps go through a sort; proved via permutation "
